@@ -97,19 +97,84 @@ def corrupt_bits(run):
     return run
 
 
+def _clean_history(run):
+    """a history run that does not contain the C04-KF9 mutator"""
+    return run[0].get("route") == "hist" and not any(e.get("m") == "bitwise" or e.get("op") == "panic" for e in run)
+
+
+def corrupt_pop(run):
+    """one popped bit reported with the wrong value"""
+    if not _clean_history(run):
+        return None
+    for e in run:
+        if e.get("op") == "mut" and e.get("m") == "pop" and e.get("r") and e["r"][0] >= 0:
+            r = list(e["r"])
+            r[0] = 1 - r[0]
+            e["r"] = r
+            return run
+    return None
+
+
+def corrupt_mut_ones(run):
+    """count_ones observed after a mutator call changed by +1"""
+    if not _clean_history(run):
+        return None
+    for e in run:
+        if e.get("op") == "mut" and e.get("m") in ("pop", "ensure_set1", "resize", "set", "insert"):
+            e["ones"] = e["ones"] + 1
+            return run
+    return None
+
+
+def drop_mutation(run):
+    """a mutator call removed from the history: the structure built afterwards no longer fits the bit string"""
+    if not _clean_history(run):
+        return None
+    for i, e in enumerate(run):
+        if e.get("op") == "mut" and e.get("m") == "pop" and any(x == 1 for x in e.get("r", [])):
+            return run[:i] + run[i + 1:]
+    return None
+
+
+def corrupt_cnt(run):
+    for e in run:
+        if e.get("op") == "cnt" and e.get("what") in ("ones", "zeros", "len"):
+            e["r"] = e["r"] + 1
+            return run
+    return None
+
+
+def corrupt_wrange(run):
+    for e in run:
+        if e.get("op") == "wrange":
+            r = list(e["r"])
+            r[7] += 1
+            e["r"] = r
+            return run
+    return None
+
+
+def corrupt_wedge(run):
+    for e in run:
+        if e.get("op") == "wedge" and e.get("tz", 64) < 63:
+            e["tz"] = e["tz"] + 1
+            return run
+    return None
+
+
 def _files(s):
     return sorted(glob.glob(os.path.join(s["_out"], "*.ndjson")))
 
 
 def _first_file_of(files, subject):
+    """the first trace file holding a run of the subject (small subjects share files)"""
+    needle = '"subject":"%s"' % subject
     for p in files:
         with open(p) as f:
-            head = f.readline()
-        try:
-            if json.loads(head).get("subject") == subject:
-                return p
-        except Exception:
-            pass
+            for line in f:
+                if line.startswith('{"big"') or '"op":"reset"' in line[:600]:
+                    if needle in line:
+                        return p
     return files[0]
 
 
@@ -136,6 +201,14 @@ def run(ctx):
     ctx.selftest_corrupt(TRACE, f0, corrupt_count, "count_ones changed by +1")
     ctx.selftest_corrupt(TRACE, f0, corrupt_get, "one get(i) answer flipped")
     ctx.selftest_corrupt(TRACE, f0, corrupt_bits, "one bit of the recorded vector flipped")
+    ctx.selftest_corrupt(TRACE, f0, corrupt_cnt, "max_rank0/max_rank1 twin of a count changed by +1")
+    fh = _first_file_of(files, "simple:new@hist")
+    ctx.selftest_corrupt(TRACE, fh, corrupt_pop, "a popped bit reported with the wrong value")
+    ctx.selftest_corrupt(TRACE, fh, corrupt_mut_ones, "count_ones observed after a mutator call changed by +1")
+    ctx.selftest_corrupt(TRACE, fh, drop_mutation, "a pop() of a one bit removed from the logged history")
+    fw = _first_file_of(files, "bmi2a:words")
+    ctx.selftest_corrupt(TRACE, fw, corrupt_wrange, "ones of one bit range of a word changed by +1")
+    ctx.selftest_corrupt(TRACE, fw, corrupt_wedge, "trailing zero count of a word changed by +1")
     # --- evidence
     cov = ctx.cov
     cov["evaluations"] = s.get("answers", 0)
@@ -144,6 +217,8 @@ def run(ctx):
     cov["vectors"] = s.get("vectors", 0)
     cov["lengths"] = s.get("lengths", 0)
     cov["max_len"] = s.get("max_len", 0)
+    cov["histories"] = s.get("histories", 0)
+    cov["history_runs"] = s.get("history_runs", 0)
     cov["subjects"] = s.get("subjects", {})
     nontrivial = 0
     vacuous = []
@@ -163,7 +238,11 @@ def run(ctx):
     cov["rule"] = ("a case = one (subject, bit vector) pair: subject = rank/select implementation x construction option x "
                    "construction route of the BitVector; bit vectors are distinct by content (length 0..130, every multiple of "
                    "64 up to 1088 +-1, 2046..2050, 4094..4098%s; patterns all-zero, all-one, one 1, one 0, alternating, runs of "
-                   "63/64/65, random p = 0.01/0.5/0.99).  Counted when at least one batch of answers was recorded and judged; "
+                   "63/64/65, random p = 0.01/0.5/0.99), or the product of a logged BitVector MUTATION HISTORY (route hist: new/with_size/"
+                   "from_raw_bits, push, pop, set/set_unchecked/get_mut, insert, ensure_set1/fast_ensure_set1, resize, clear, "
+                   "set_range_simd, bulk_bitwise_op_simd, reserve/clone/== ; TLC computes the bit string from the logged calls, "
+                   "len and count_ones are judged after every call, the BitVector-only subject is probed in full after every "
+                   "call, and every rank/select family is then built from the resulting vector).  Counted when at least one batch of answers was recorded and judged; "
                    "every case carries the answers for EVERY position 0..=len and EVERY k in 0..=len (k >= count must be refused)"
                    "%s.  evaluations = individual (position, answer) pairs judged by TLC against the TLA+ definition."
                    % ((", all lengths 0..1100, 65534..65538" if ctx.thorough else ""),
@@ -182,6 +261,8 @@ def run(ctx):
         "bit string of length <= 10; for longer vectors the same table construction is used",
         "hardware paths: whatever the host CPU selects at run time (POPCNT/BMI2/AVX2 present here); scalar fall-backs behind "
         "is_x86_feature_detected! are not forced",
+        "route hist: the abstract bit string is computed by TLC from the logged mutator calls (history machine in RankSelect.tla); "
+        "C04-KF9 input region excluded in the driver: bulk_bitwise_op_simd OR/XOR with an operand longer than the vector",
         "select0 is judged where offered: an implementation refusing every select0 is recorded under select0_not_offered_subjects",
     ]
 
